@@ -81,6 +81,7 @@ type node struct {
 	nlink    int
 	mu       sync.RWMutex
 	mode     fs.FileMode
+	dir      bool // dir is set when the node is created and never changes: it is read without holding mu.
 }
 
 // OrefaInfo is the implementation of fs.FileInfo returned by Stat and Lstat.
